@@ -7,6 +7,7 @@ import proc
 import world
 import worldscen as ws
 import execbody
+import cmdstatus
 
 R = '@R@'
 ALPHA = [' ', "'", '\\"', '*', '?', '$', '`', ';', '|', '&', '<', '>', '(', ')', '\t', '\n', 'a', 'b', '-', '=', '\xe9', '\xff', '#', '%s', '{', '}', '[', ']', '!', '..', '/']
@@ -158,7 +159,11 @@ def run(rep):
     tools = proc.Tools(sc)
     W = world.WorldCheck(sc, tools)
     vlib.lean_gate(rep, 'C13', sc, [
-        'the exec helper (harness/shim/exechelper.c) records argv, stdin bytes and /proc/self/fd of the child',
+        'the exec helper (harness/shim/exechelper.c) records argv, stdin bytes and /proc/self/fd of the child; run through a link named '
+        'cmd-exit-N / cmd-signal-N it ends that way',
+        'unit harness: a program named vstatus:... is not looked up by execvp(3), the child of the real exec() ends as the name says '
+        '(harness/unit/h_expr.c)',
+        cmdstatus.SIGNAL_NOTE,
         'fork/execvp/waitpid are the kernel\'s; the model sees fork and the wait status',
         'C13_fd_hygiene / C13_fd_cloexec speak about Model.openFds (the descriptor table as a view of the trace); the tie to the '
         'binary: tools/world.py maps an observed openat / open / fcntl / mkostemp / opendir to the constructors openRd / openExcl / '
@@ -181,6 +186,9 @@ def run(rep):
     # "reads the complete content from offset 0" when the transfer into the temporary file is disturbed (short counts, EINTR, ENOSPC,
     # file size limit): tools/execbody.py, shared with C11
     fault_cov = execbody.stage(rep, tools, whole_part=True)
+    # "all exit statuses/signals": every way a program can end or fail to start, as a `command` condition and as an `exec` action
+    # (tools/cmdstatus.py: real binary judged by the documented meaning, and the real evaluator in-process against Model.eval)
+    status_cov = cmdstatus.stage(rep, sc, tools, W, random.Random(rep.seed + 3))
     if corr_bad and not rep.violations:
         rep.violation({'obligation': 'correspondence: an exec scenario does not follow Model.mainP', 'disagreements': len(corr_bad), 'examples': corr_bad[:6]}, False)
     vlib.lean_conclude(rep)
@@ -197,6 +205,7 @@ def run(rep):
         'kinds': kinds,
         'correspondence_mismatches': len(corr_bad),
         'stdin_under_write_faults': fault_cov,
+        'command_status_family': status_cov,
     })
 
 
@@ -208,4 +217,7 @@ def replay(rep, path):
     vlib.lean_gate(rep, 'C13', sc, [])
     if j.get('stage') == 'execbody':
         execbody.replay(proc.Tools(sc), j)
+    if j.get('stage') == 'cmdstatus':
+        tools = proc.Tools(sc)
+        cmdstatus.replay_process(tools, world.WorldCheck(sc, tools), j)
     rep.coverage.update({'evaluations': 1, 'distinct_nontrivial': 1})
